@@ -1393,4 +1393,32 @@ theorem deliverC_new {tsOf : Nat → Int} {n : Nat} (hm : Monotone tsOf n) (hn :
       rw [st_eq _ _ e1, ← e2]; exact g1
     · intro y; rw [q1 y]; simp
 
+/-! ## 8. minimum / maximum folds (lightFill over all records) -/
+theorem foldl_min_le (l : List Int) : ∀ (a : Int), l.foldl min a ≤ a ∧ ∀ x ∈ l, l.foldl min a ≤ x := by
+  induction l with
+  | nil => intro a; simp
+  | cons y ys ih =>
+    intro a
+    obtain ⟨h1, h2⟩ := ih (min a y)
+    simp only [List.foldl_cons]
+    refine ⟨by omega, ?_⟩
+    intro x hx
+    cases hx with
+    | head => omega
+    | tail _ hx' => exact h2 x hx'
+
+theorem le_foldl_max (l : List Int) : ∀ (a : Int), a ≤ l.foldl max a ∧ ∀ x ∈ l, x ≤ l.foldl max a := by
+  induction l with
+  | nil => intro a; simp
+  | cons y ys ih =>
+    intro a
+    obtain ⟨h1, h2⟩ := ih (max a y)
+    simp only [List.foldl_cons]
+    refine ⟨by omega, ?_⟩
+    intro x hx
+    cases hx with
+    | head => omega
+    | tail _ hx' => exact h2 x hx'
+
+
 end Logrange.PipeHist
